@@ -20,10 +20,33 @@ LoInsert(v, s) == IF s = << >> THEN <<v>>
 RECURSIVE LoSort(_)      \* ascending, duplicates kept
 LoSort(s) == IF s = << >> THEN << >> ELSE LoInsert(Head(s), LoSort(Tail(s)))
 
-LoRij(H, ppp, pos, i, j) == MinImage1(H, VSub(pos[j], pos[i]), ppp)
-LoD2(H, ppp, pos, i, j)  == Norm2(LoRij(H, ppp, pos, i, j))
+(***************************************************************************)
+(* Pair tables.  Cell!MinImage enumerates candidate coefficient vectors    *)
+(* and recomputes the adjugate per component; for the many pairs of one    *)
+(* configuration the same image is obtained directly from the adjugate     *)
+(* computed once (LoFastIsMinImage states the agreement, checked as an     *)
+(* invariant).  At an exact half-cell tie the lower coefficient is taken   *)
+(* and the pair is flagged.                                                *)
+(***************************************************************************)
+LoFrac(adj, det, v)     == LET a == VecMat(v, adj) IN IF det < 0 THEN VNeg(a) ELSE a
+LoCoef(adj, det, v, ppp) == LET f == LoFrac(adj, det, v) IN
+                            [k \in 1..Len(v) |-> IF ppp[k] = 1 THEN SetMin(NearestSet(f[k], Abs(det))) ELSE 0]
+LoImg(H, adj, det, v, ppp) == VSub(v, VecMat(LoCoef(adj, det, v, ppp), H))
+LoTie(adj, det, v, ppp)    == LET f == LoFrac(adj, det, v) IN
+                              \E k \in 1..Len(v) : ppp[k] = 1 /\ IsHalfTie(f[k], Abs(det))
+\* rt[i][j] = minimum-image vector from i to j (zero for i = j); tt[i][j] = the pair sits on a half-cell tie
+LoTable(H, ppp, pos) ==
+  LET adj == Adj(H)  det == Det(H) IN
+  [i \in 1..Len(pos) |-> [j \in 1..Len(pos) |->
+      IF i = j THEN Zero(Len(pos[1])) ELSE LoImg(H, adj, det, VSub(pos[j], pos[i]), ppp)]]
+LoTieTable(H, ppp, pos) ==
+  LET adj == Adj(H)  det == Det(H) IN
+  [i \in 1..Len(pos) |-> [j \in 1..Len(pos) |-> i # j /\ LoTie(adj, det, VSub(pos[j], pos[i]), ppp)]]
+LoFastIsMinImage(H, ppp, pos, i, j) ==
+  /\ LoImg(H, Adj(H), Det(H), VSub(pos[j], pos[i]), ppp) \in MinImage(H, VSub(pos[j], pos[i]), ppp)
+  /\ LoTie(Adj(H), Det(H), VSub(pos[j], pos[i]), ppp) = HasTie(H, VSub(pos[j], pos[i]), ppp)
+
 LoOthers(n, i)           == SelectSeq([j \in 1..n |-> j], LAMBDA j : j # i)
-LoPairTie(H, ppp, pos, i) == \E j \in 1..Len(pos) : j # i /\ HasTie(H, VSub(pos[j], pos[i]), ppp)
 
 (***************************************************************************)
 (* 1. Pair entropy S2.                                                     *)
@@ -34,7 +57,8 @@ LoPairTie(H, ppp, pos, i) == \E j \in 1..Len(pos) : j # i /\ HasTie(H, VSub(pos[
 (*   S2_i = -(d - 1) pi rho Trapz_k [ (g ln g - g + 1) r_k^(d-1) ]         *)
 (* (docs/orderings.md section 3).  g ln g is continued by its limit 0 at   *)
 (* g = 0, so the integrand is 1 there.                                     *)
-(* Input p: [d, H, ppp, S, pos, types, sig, rn, rd, nd] with               *)
+(* Input p: [d, H, ppp, S, pos, types, sig, rn, rd, nd, rt, tt] with       *)
+(* rt = LoTable, tt = LoTieTable of the configuration (S2Prep adds them),  *)
 (* sig[a][b] = <<sn, sd>> the width for a centre of type a and a neighbour *)
 (* of type b, rdelta = rn / rd.                                            *)
 (***************************************************************************)
@@ -44,7 +68,10 @@ S2EdgeL(p, d2) == 4 * p.rd * p.rd * d2
 S2EdgeR(p)     == p.S * p.S * p.rn * p.rn * (2 * p.nd - 1) * (2 * p.nd - 1)
 S2InRange(p, d2) == S2EdgeL(p, d2) < S2EdgeR(p)
 S2OnEdge(p, d2)  == S2EdgeL(p, d2) = S2EdgeR(p)
-S2D2(p, i, j)    == LoD2(p.H, p.ppp, p.pos, i, j)
+S2Prep(q) == [d |-> q.d, H |-> q.H, ppp |-> q.ppp, S |-> q.S, pos |-> q.pos, types |-> q.types, sig |-> q.sig,
+              rn |-> q.rn, rd |-> q.rd, nd |-> q.nd,
+              rt |-> LoTable(q.H, q.ppp, q.pos), tt |-> LoTieTable(q.H, q.ppp, q.pos)]
+S2D2(p, i, j)    == Norm2(p.rt[i][j])
 \* the neighbours that contribute to g_i, in id order
 S2Contrib(p, i)  == SelectSeq(LoOthers(S2N(p), i), LAMBDA j : S2InRange(p, S2D2(p, i, j)))
 \* a decision the floating-point code cannot be held to: distance exactly r_max, or a
@@ -55,7 +82,7 @@ S2Contrib(p, i)  == SelectSeq(LoOthers(S2N(p), i), LAMBDA j : S2InRange(p, S2D2(
 IsPow2(n) == n \in {1, 2, 4, 8, 16, 32, 64}
 S2Sharp(p, d2) == IsPow2(p.S) /\ IsPow2(p.rd) /\ IsDiagonal(p.H) /\ IsSquare(d2)
 S2Tie(p, i) == \/ \E j \in 1..S2N(p) : j # i /\ S2OnEdge(p, S2D2(p, i, j)) /\ ~S2Sharp(p, S2D2(p, i, j))
-               \/ (~IsDiagonal(p.H) /\ LoPairTie(p.H, p.ppp, p.pos, i))
+               \/ (~IsDiagonal(p.H) /\ \E j \in 1..S2N(p) : p.tt[i][j])
 S2HasSharpEdge(p, i) == \E j \in 1..S2N(p) : j # i /\ S2OnEdge(p, S2D2(p, i, j)) /\ S2Sharp(p, S2D2(p, i, j))
 S2Sigma(p, i, j) == p.sig[p.types[i]][p.types[j]]
 
@@ -104,7 +131,7 @@ S2Class(p, i) == IF \A k \in 1..p.nd : S2PosBin(p, i, k) THEN "pos"
 \* model-level clauses
 S2ContribSymmetric(p) ==
   \A i, j \in 1..S2N(p) :
-    (i # j /\ ~HasTie(p.H, VSub(p.pos[j], p.pos[i]), p.ppp)) =>
+    (i # j /\ ~p.tt[i][j]) =>
        /\ S2D2(p, i, j) = S2D2(p, j, i)
        /\ (S2Tie(p, i) \/ S2Tie(p, j) \/ ((\E x \in 1..Len(S2Contrib(p, i)) : S2Contrib(p, i)[x] = j)
                                           <=> (\E x \in 1..Len(S2Contrib(p, j)) : S2Contrib(p, j)[x] = i)))
@@ -118,12 +145,8 @@ S2ClassConsistent(p) ==
 (* 2. Tetrahedral order: the four nearest by exact squared minimum-image   *)
 (* distance;  q_i = 1 - (3/32) sum_{j<k} (cos psi_jk + 1/3)^2.             *)
 (***************************************************************************)
-\* rt[i][j] = minimum-image vector from i to j, tt[i][j] = that pair sits on a half-cell tie
-\* (computed once per configuration and handed to the operators below)
-TeTable(H, ppp, pos)    == [i \in 1..Len(pos) |-> [j \in 1..Len(pos) |->
-                              IF i = j THEN Zero(Len(pos[1])) ELSE LoRij(H, ppp, pos, i, j)]]
-TeTieTable(H, ppp, pos) == [i \in 1..Len(pos) |-> [j \in 1..Len(pos) |->
-                              i # j /\ HasTie(H, VSub(pos[j], pos[i]), ppp)]]
+TeTable(H, ppp, pos)    == LoTable(H, ppp, pos)
+TeTieTable(H, ppp, pos) == LoTieTable(H, ppp, pos)
 \* others of i sorted by (d2, id): keys d2 * 1024 + id
 TeSorted(rt, i) == LET s == SortedSeq({Norm2(rt[i][j]) * 1024 + j : j \in Range(LoOthers(Len(rt), i))})
                    IN  [x \in 1..Len(s) |-> s[x] % 1024]
